@@ -141,7 +141,8 @@ impl World {
 		}
 		let node = &self.nodes[n];
 		let (mgr_bytes, mon_bytes): (Option<Vec<u8>>, Vec<([u8; 32], Vec<u8>)>) = {
-			let d = node.disk.lock().unwrap();
+			let mut d = node.disk.lock().unwrap();
+			d.loaded_generation = d.manager_generation;
 			(
 				d.manager.clone(),
 				d.chans
@@ -251,14 +252,24 @@ impl World {
 		self.nodes[n].live = Some(Live { manager, monitor, watch, persister });
 		self.nodes[n].incarnation += 1;
 		self.nodes[n].watch_cursor = 0;
+		self.nodes[n].outdated_chans.clear();
+		let lg = self.nodes[n].disk.lock().unwrap().loaded_generation;
+		self.nodes[n].loaded_gens.push(lg);
 		self.out.bump("probe:node_restarted");
 		self.note(&format!("node {} restarted (incarnation {})", n, self.nodes[n].incarnation));
+		// In deferred mode the watch_channel registrations above are only queued: checkpoint the
+		// manager and flush them first, otherwise the monitors are not there to be synced.
+		if self.nodes[n].cfg.deferred {
+			self.do_persist_mgr(n);
+			self.complete_all_monitor_writes(n);
+		}
 		// bring everything to the tip from its own best block
 		self.sync_after_restart(n, style);
 		// initial writes of the re-registered monitors complete, then checkpoint
 		self.complete_all_monitor_writes(n);
 		self.do_persist_mgr(n);
 		self.after_node_action(n);
+		self.oracle_after_restart(n);
 		true
 	}
 
